@@ -95,6 +95,7 @@ type Router struct {
 	nat            *networkAddressTranslator // read-only
 	nics           map[string]NIC            // read-only
 	stopFunc       func()                    // requires mutex [x]
+	stoppedCh      chan struct{}             // requires mutex [x], closed when the forwarding goroutine has exited
 	resolver       *resolver                 // read-only
 	chunkFilters   []ChunkFilter             // requires mutex [x]
 	minDelay       time.Duration             // requires mutex [x]
@@ -234,8 +235,10 @@ func (r *Router) Start() error { //nolint:cyclop
 	}
 
 	cancelCh := make(chan struct{})
+	doneCh := make(chan struct{})
 
 	go func() {
+		defer close(doneCh)
 	loop:
 		for {
 			duration, err := r.processChunks()
@@ -265,6 +268,7 @@ func (r *Router) Start() error { //nolint:cyclop
 	r.stopFunc = func() {
 		close(cancelCh)
 	}
+	r.stoppedCh = doneCh
 
 	for _, child := range r.children {
 		if err := child.Start(); err != nil {
@@ -296,6 +300,15 @@ func (r *Router) Stop() error {
 
 	r.stopFunc()
 	r.stopFunc = nil
+
+	// Wait until the forwarding goroutine has finished its current pass.
+	// Otherwise a following Start would run a second goroutine beside it, and
+	// the two could forward queued chunks out of order. The goroutine needs
+	// the mutex to finish, so it is released while waiting.
+	stopped := r.stoppedCh
+	r.mutex.Unlock()
+	<-stopped
+	r.mutex.Lock()
 
 	return nil
 }
